@@ -35,6 +35,8 @@
 #include "OutPair.hpp"
 #include "Pod.hpp"
 #include "Tok.hpp"
+#include "TokIter.hpp"
+#include "TokList.hpp"
 #include "View.hpp"
 
 extern "C" {
@@ -95,10 +97,12 @@ static Fn make_fn(uint32_t& id_out) {
 // ---- trace ----------------------------------------------------------------------------------------
 enum K { NEW, TRY_NEW, TRY_NEW_DISCARD, MAYBE_NEW, TRY_NEW_POD, ID, BUMP, PEER, MAYBE_PEER, VIEW, TRY_VIEW, VIEW_OWNER, PAIR, TRY_PAIR,
          TAKE_STRS, SUM, FILL, CALL, CALL_TWICE, IGNORE, TRY_CALL, GREET, HOLD, CALL_HELD, UNHOLD, OPT_IN, DOPT_IN, OPT_U32, RES_UNIT, RES_POD,
-         DESCRIBE, DESCRIBE_N, TRY_DESCRIBE, DESCRIBE_INTO, DESTROY, MOVE, THROW_SCOPE, SCOPE, NKINDS };
+         DESCRIBE, DESCRIBE_N, TRY_DESCRIBE, DESCRIBE_INTO, DESTROY, MOVE, THROW_SCOPE, SCOPE,
+         LIST_NEW, ITER_BEGIN, ITER_COPY, ITER_DROP, ITER_ADVANCE, ITER_RANGE, NKINDS };
 static const char* KNAME[] = {"new", "try_new", "try_new_discard", "maybe_new", "try_new_pod_err", "id", "bump", "peer", "maybe_peer", "view", "try_view", "view_owner", "pair", "try_pair",
                               "take_strs", "sum", "fill", "call", "call_twice", "ignore", "try_call", "greet", "hold", "call_held", "unhold", "opt_in", "dopt_in", "opt_u32", "res_unit", "res_pod",
-                              "describe", "describe_n", "try_describe", "describe_into", "destroy", "move", "throw_scope", "scope"};
+                              "describe", "describe_n", "try_describe", "describe_into", "destroy", "move", "throw_scope", "scope",
+                              "list_new", "iter_begin", "iter_copy", "iter_drop", "iter_advance", "iter_range"};
 struct Op { int k = 0; int h = 0, g = 0, d = 0; int n = 0; bool f = true; };
 struct Trace { uint64_t seed = 0, run = 0; std::string prop = "C03"; std::vector<Op> ops; };
 static const int NH = 6;
@@ -147,19 +151,34 @@ static Trace gen_trace(uint64_t seed, uint64_t run, const std::string& prop) {
   if (!total) { fam[4] = 1; total = 1; }
   std::vector<int> kinds(NH, 0);  // generator's own heuristic view: 0 none 1 tok 2 err 3 view
   uint32_t nops = 1 + rng.below(max_ops);
+  std::vector<int> ad(4, 0);  // heuristic view of which iterator-adapter slots are occupied
   for (uint32_t i = 0; i < nops; i++) {
     Op o; o.h = rng.below(nh); o.g = rng.below(nh); o.d = rng.below(nh); o.f = rng.below(16) >= err_rate;
+    {
+      std::vector<int> occ, fre;
+      for (int a = 0; a < 4; a++) (ad[a] ? occ : fre).push_back(a);
+      if (!occ.empty() && prop != "C12" && rng.chance(2, 5)) {
+        o.g = occ[rng.below((uint32_t)occ.size())];
+        switch (rng.below(4)) {
+          case 0: case 1: o.k = ITER_ADVANCE; break;
+          case 2: if (!fre.empty()) { o.k = ITER_COPY; o.d = fre[rng.below((uint32_t)fre.size())]; ad[o.d] = 1; } else o.k = ITER_ADVANCE; break;
+          default: o.k = ITER_DROP; ad[o.g] = 0; break;
+        }
+        t.ops.push_back(o); continue;
+      }
+    }
     if (kinds[o.h] == 0) {
       switch (rng.below(7)) {
         case 0: case 1: case 2: o.k = NEW; kinds[o.h] = 1; break;
         case 3: o.k = TRY_NEW; kinds[o.h] = o.f ? 1 : 2; break;
         case 4: o.k = MAYBE_NEW; if (o.f) kinds[o.h] = 1; break;
         case 5: o.k = TRY_NEW_POD; if (o.f) kinds[o.h] = 1; break;
-        default: o.k = TRY_NEW_DISCARD; break;
+        default: if (rng.chance(1, 2)) { o.k = TRY_NEW_DISCARD; } else { o.k = LIST_NEW; o.n = rng.below(5); kinds[o.h] = 4; } break;
       }
       t.ops.push_back(o); continue;
     }
     if (rng.below(16) < destroy_rate) { o.k = DESTROY; kinds[o.h] = 0; t.ops.push_back(o); continue; }
+    if (kinds[o.h] == 4) { o.k = rng.pick<int>({ITER_BEGIN, ITER_BEGIN, ITER_BEGIN, ITER_RANGE, ID}); o.g = rng.below(4); o.d = rng.below(4); if (o.k == ITER_BEGIN) ad[o.g] = 1; t.ops.push_back(o); continue; }
     if (kinds[o.h] != 1) { o.k = (kinds[o.h] == 3 && rng.chance(2, 3)) ? VIEW_OWNER : ID; t.ops.push_back(o); continue; }
     uint32_t pick = rng.below(total); int f = 0;
     while (pick >= fam[f]) { pick -= fam[f]; f++; }
@@ -177,7 +196,7 @@ static Trace gen_trace(uint64_t seed, uint64_t run, const std::string& prop) {
       case 6: o.k = rng.pick<int>({DESCRIBE, DESCRIBE_N, DESCRIBE_N, TRY_DESCRIBE, DESCRIBE_INTO}); o.n = rng.pick<int>({0, 1, 3, 7, 8, 9, 12, 40}); o.g = rng.below(6);
         if (o.k == TRY_DESCRIBE && kinds[o.d] == 0 && !o.f) kinds[o.d] = 2;
         break;
-      default: o.k = rng.chance(1, 2) ? THROW_SCOPE : SCOPE; o.n = rng.below(4); break;
+      default: o.k = rng.pick<int>({THROW_SCOPE, SCOPE, ITER_BEGIN, ITER_COPY, ITER_DROP, ITER_ADVANCE, ITER_RANGE, ITER_ADVANCE, ITER_COPY}); o.n = rng.below(4); o.g = rng.below(4); o.d = rng.below(4); break;
     }
     t.ops.push_back(o);
   }
@@ -185,8 +204,19 @@ static Trace gen_trace(uint64_t seed, uint64_t run, const std::string& prop) {
 }
 
 // ---- executor -------------------------------------------------------------------------------------
+using Adapter = diplomat::next_to_iter_helper<TokIter>;
+struct IterGroup { uint32_t iter_id; int refs; std::vector<uint32_t> items; size_t pos; int list; };
+struct A {  // one C++ iterator adapter value held by the caller
+  std::optional<Adapter> it;
+  std::shared_ptr<IterGroup> grp;
+  std::optional<uint32_t> curr;
+};
+static const int NA = 4;
+
 struct H {
-  int kind = 0;  // 0 none, 1 tok, 2 err, 3 view
+  std::unique_ptr<TokList> list;
+  std::vector<uint32_t> items;
+  int kind = 0;  // 0 none, 1 tok, 2 err, 3 view, 4 list
   std::unique_ptr<Tok> tok;
   std::unique_ptr<ErrTok> err;
   std::unique_ptr<View> view;
@@ -210,13 +240,14 @@ static bool g_known_strs_layout = false;  // KNOWN_FINDINGS: span<const string_v
 
 struct Exec {
   H hs[NH];
+  A ads[NA];
   bool c12;
   int step = 0;
   Outcome* out;
   std::optional<Violation> viol;
 
   void fail(const std::string& oracle, const std::string& detail) { if (!viol) viol = Violation{oracle, detail, step}; }
-  bool has_dependents(int h) { for (auto& x : hs) if (x.kind && x.lender == h) return true; return false; }
+  bool has_dependents(int h) { for (auto& x : hs) if (x.kind && x.lender == h) return true; for (auto& a : ads) if (a.it && a.grp->list == h) return true; return false; }
   void put_tok(int h, std::unique_ptr<Tok> t) { hs[h] = H(); hs[h].kind = 1; hs[h].id = t->id(); hs[h].tok = std::move(t); }
   void put_err(int h, std::unique_ptr<ErrTok> e) { hs[h] = H(); hs[h].kind = 2; hs[h].id = e->id(); hs[h].err = std::move(e); }
   void put_view(int d, int lender, std::unique_ptr<View> v) { hs[d] = H(); hs[d].kind = 3; hs[d].id = v->id(); hs[d].view = std::move(v); hs[d].lender = lender; }
@@ -261,9 +292,63 @@ struct Exec {
         if (o.f) put_tok(o.h, std::move(r).ok().value()); else { inc("fault_arm_err_fired"); if (std::move(r).err().value().code != -7) fail("O5-value-integrity", "ErrPod damaged"); }
         break;
       }
+      case LIST_NEW: {
+        if (x.kind) return false;
+        uint32_t first = vb_ledger_next_id();
+        auto l = TokList::new_(o.n);
+        hs[o.h] = H(); hs[o.h].kind = 4; hs[o.h].id = l->id();
+        for (int i = 0; i < o.n; i++) hs[o.h].items.push_back(first + 1 + i);
+        hs[o.h].list = std::move(l);
+        if (hs[o.h].id != first) fail("O5-value-integrity", "list id unexpected");
+        break;
+      }
+      case ITER_BEGIN: {
+        A& a = ads[o.g % NA];
+        if (x.kind != 4 || a.it) return false;
+        uint32_t iid = vb_ledger_next_id();
+        a.grp = std::make_shared<IterGroup>(IterGroup{iid, 1, x.items, 0, o.h});
+        a.it.emplace(x.list->begin());
+        // the adapter fetched the first element on construction
+        a.curr = a.grp->pos < a.grp->items.size() ? std::optional<uint32_t>(a.grp->items[a.grp->pos++]) : std::nullopt;
+        inc("iterator_adapters_created");
+        break;
+      }
+      case ITER_COPY: {
+        A& src = ads[o.g % NA]; A& dst = ads[o.d % NA];
+        if (!src.it || dst.it || &src == &dst) return false;
+        dst.it.emplace(*src.it); dst.grp = src.grp; dst.grp->refs++; dst.curr = src.curr;
+        inc("iterator_adapters_copied");
+        break;
+      }
+      case ITER_DROP: {
+        A& a = ads[o.g % NA];
+        if (!a.it) return false;
+        a.it.reset(); a.grp->refs--; a.grp.reset(); a.curr.reset();
+        break;
+      }
+      case ITER_ADVANCE: {
+        A& a = ads[o.g % NA];
+        if (!a.it) return false;
+        bool has = (*a.it != std::nullopt);
+        if (has != a.curr.has_value()) { fail("O5-value-integrity", "iterator adapter end state wrong"); break; }
+        if (has) {
+          if (**a.it != *a.curr) { fail("O5-value-integrity", "iterator adapter yields " + std::to_string(**a.it) + " expected " + std::to_string(*a.curr)); break; }
+          ++*a.it;
+          a.curr = a.grp->pos < a.grp->items.size() ? std::optional<uint32_t>(a.grp->items[a.grp->pos++]) : std::nullopt;
+        }
+        inc("iterator_adapters_advanced");
+        break;
+      }
+      case ITER_RANGE: {
+        if (x.kind != 4) return false;
+        std::vector<uint32_t> seen;
+        for (auto it = x.list->begin(); it != std::nullopt; ++it) seen.push_back(*it);
+        if (seen != x.items) fail("O5-value-integrity", "iteration yields wrong elements");
+        break;
+      }
       case ID: {
         if (!x.kind) return false;
-        uint32_t got = x.kind == 1 ? x.tok->id() : x.kind == 2 ? x.err->id() : x.view->id();
+        uint32_t got = x.kind == 1 ? x.tok->id() : x.kind == 2 ? x.err->id() : x.kind == 4 ? x.list->id() : x.view->id();
         if (got != x.id) fail("O5-value-integrity", "handle reports a different id");
         break;
       }
@@ -423,6 +508,7 @@ struct Exec {
         int from = o.h;
         hs[o.d] = std::move(hs[from]); hs[from] = H();
         for (auto& y : hs) if (y.kind && y.lender == from) y.lender = o.d;
+        for (auto& a : ads) if (a.it && a.grp->list == from) a.grp->list = o.d;
         inc("handle_moved");
         break;
       }
@@ -450,8 +536,10 @@ struct Exec {
 
   std::vector<uint32_t> expected_live() {
     std::vector<uint32_t> v;
-    for (auto& x : hs) if (x.kind) { v.push_back(x.id); if (x.held) v.push_back(x.held); }
+    for (auto& x : hs) if (x.kind) { v.push_back(x.id); if (x.held) v.push_back(x.held); for (auto i : x.items) v.push_back(i); }
+    for (auto& a : ads) if (a.it) v.push_back(a.grp->iter_id);
     std::sort(v.begin(), v.end());
+    v.erase(std::unique(v.begin(), v.end()), v.end());
     return v;
   }
 };
@@ -482,7 +570,8 @@ static Outcome execute(const Trace& t) {
     }
     if (!ex.viol) {
       ex.step = (int)t.ops.size();
-      // release everything still held: views first (they borrow), then the rest
+      // release everything still held: iterator adapters and views first (they borrow), then the rest
+      for (auto& a : ex.ads) { a.it.reset(); a.grp.reset(); }
       for (auto& x : ex.hs) if (x.kind == 3) x = H();
       for (auto& x : ex.hs) x = H();
       if (vb_ledger_bad_count() != 0) ex.fail("O1-exactly-once", "an object was dropped twice while releasing the remaining handles");
@@ -490,7 +579,8 @@ static Outcome execute(const Trace& t) {
       out.log += "end live=" + std::to_string(vb_ledger_live_count()) + " drops=" + std::to_string(vb_ledger_drops()) + "\n";
     } else {
       // after a violation the wrappers may own freed memory: leak them rather than touch them again
-      for (auto& x : ex.hs) { (void)x.tok.release(); (void)x.err.release(); (void)x.view.release(); }
+      for (auto& x : ex.hs) { (void)x.tok.release(); (void)x.err.release(); (void)x.view.release(); (void)x.list.release(); }
+      for (auto& a : ex.ads) if (a.it) { new Adapter(std::move(*a.it)); }
     }
     out.violation = ex.viol;
     out.nontrivial = executed >= 2;
